@@ -35,6 +35,18 @@ Theorem C03_modify : forall ps p off c p', wf ps p -> (off + length c <= ps)%nat
   exists b, pg_bytes p = Some b /\ wf ps p' /\ lcontent p' = Some (splice off c b).
 Proof. exact modify_spec. Qed.
 
+(* MarkDirty (repair of D35): the content stays, the page is dirty and has a buffer to write back; as found, MarkDirty on
+   a page that was never loaded made it dirty WITHOUT a buffer - its flush wrote nothing and the commit moved the page
+   to a fresh location: the committed contents were lost (C03_mark_dirty_before_the_fix_refuted) *)
+Theorem C03_mark_dirty : forall ps p p', wf ps p -> page_mark_dirty ps p = POk p' ->
+  wf ps p' /\ lcontent p' = Some (base ps (lcontent p)) /\ f_dirty (pg_flags p') = true.
+Proof. exact mark_dirty_spec. Qed.
+Print Assumptions C03_mark_dirty.
+Theorem C03_mark_dirty_before_the_fix_refuted : exists (p p' p'' : pagest) w,
+  wf 4 p /\ page_mark_dirty_v1 p = POk p' /\ f_dirty (pg_flags p') = true /\
+  page_flush p' = POk (p'', w) /\ w = None /\ lcontent p = Some [1; 2; 3; 4].
+Proof. exact mark_dirty_v1_refuted. Qed.
+
 Theorem C03_bytes : forall p, page_bytes p = match lcontent p with Some b => POk b | None => PErr EInvalidOp end.
 Proof. exact bytes_spec. Qed.
 
